@@ -4,7 +4,7 @@ from ..rules import (calls_to, calls_where, blocks_of, must_pass, bool_edges, ca
                      self_field_of_call, returns)
 from ..facts import callee_path, op_local, trace
 
-TEXT = ("The transition relation of PlaybackStateManager is extracted from the MIR of pause/resume/stop/mark_as_stopped/update by path-sensitive exploration over the discriminant of `state` and compared with the documented life cycle (Stopped has no outgoing edge); fade-driven edges are guarded by the fade tween finishing; fade targets are the SILENCE/IDENTITY constants; every state change is mirrored to the handle; the decode tables match the enum; non-advancing states return through zero-fill without touching position; the sweep that unloads finished sounds runs on every path of every callback. Tween timing and gain values are not decided. The static sound feeds its resampler None whenever the transport is not playing (so every finite sound drains and stops). The resampler counts down to empty when fed None. Life-cycle commands are written on every non-error path of the handle methods, also through wrappers; the fade and start-time bookkeeping runs on every path of process() that does not stop the sound. Pause, resume and stop are polled in that order on every path and every command read reaches the state machine; the fade parameter is only retargeted (with the caller's tween), never rebuilt; num_frames is bounded by the audio; a loop region that is cleared is cleared. Sound::process skips its per-frame loop only through the documented silent exits; the tween handed to the fade has had no field overwritten. Elapsed time is accumulated in double precision; the start-time countdown subtracts exactly this update's dt. The track a sound plays on is not unloaded under it; every life-cycle reader is polled on every path; the command handlers build / alter no Tween. resume(tween) is resume_at(StartTime::Immediate, tween) on every handle that has both. A sound is handed the slice of this chunk (its fades and delays advance by the time that slice covers).")
+TEXT = ("The transition relation of PlaybackStateManager is extracted from the MIR of pause/resume/stop/mark_as_stopped/update by path-sensitive exploration over the discriminant of `state` and compared with the documented life cycle (Stopped has no outgoing edge); fade-driven edges are guarded by the fade tween finishing; fade targets are the SILENCE/IDENTITY constants; every state change is mirrored to the handle; the decode tables match the enum; non-advancing states return through zero-fill without touching position; the sweep that unloads finished sounds runs on every path of every callback. Tween timing and gain values are not decided. The static sound feeds its resampler None whenever the transport is not playing (so every finite sound drains and stops). The resampler counts down to empty when fed None. Life-cycle commands are written on every non-error path of the handle methods, also through wrappers; the fade and start-time bookkeeping runs on every path of process() that does not stop the sound. Pause, resume and stop are polled in that order on every path and every command read reaches the state machine; the fade parameter is only retargeted (with the caller's tween), never rebuilt; num_frames is bounded by the audio; a loop region that is cleared is cleared. Sound::process skips its per-frame loop only through the documented silent exits; the tween handed to the fade has had no field overwritten. Elapsed time is accumulated in double precision; the start-time countdown subtracts exactly this update's dt. The track a sound plays on is not unloaded under it; every life-cycle reader is polled on every path; the command handlers build / alter no Tween. resume(tween) is resume_at(StartTime::Immediate, tween) on every handle that has both. A sound is handed the slice of this chunk (its fades and delays advance by the time that slice covers). Every child of a track (sub-track, sound, effect) is processed on every non-frozen path; every finished sound is swept in one callback, however many finish at once.")
 TECHNIQUE = 'MIR path-sensitive state-machine extraction + CFG must-pass / table rules'
 
 PSM = 'playback_state_manager::PlaybackStateManager'
